@@ -170,6 +170,11 @@ def strategy_rebalance(chk, pid):
         rets = [e for e in S.events if e.kind == "return" and e.chain == (fi.qual,)]
         early = [e for e in rets if any(e.seq < t.seq for t in trades)]
         bad = [e for e in early if not sym.lit_holds(G(e), zw, True)]
+        # an early exit inside one accounting mode belongs to that mode's property
+        if pid == "C06":
+            bad = [e for e in bad if not sym.lit_holds(G(e), fi_atom, True)]
+        else:
+            bad = [e for e in bad if not sym.lit_holds(G(e), fi_atom, False)]
         chk.ob("C06.R5", not bad, CORE, host, "always-trades-nonzero-weight", "for a non-zero target weight the child is always traded to its target: there is no other early exit "
                "(a child already at weight w still has to move when the base differs from the current value)", where=bad[0].where if bad else fi.where,
                expected="return only under is_zero(weight)", found="; ".join(sym.fmt_guard(plain(e.guard))[:120] for e in bad))
